@@ -65,7 +65,7 @@ Section Ops.
     - constructor.
     - rewrite Hc, app_nil_r. reflexivity.
     - rewrite Hc. unfold wire, frame_of. rewrite zlen_frame by assumption. lia.
-    - unfold rd_fuel, rd_bytes. cbn [fst]. pose proof (chunks_ok_length _ Hok). lia.
+    - unfold rd_fuel, rd_bytes. cbn [fst]. lia.
     - unfold v_readheader_model, c_ReadHeader. rewrite HR, E1, E2, E3. reflexivity.
   Qed.
 
